@@ -275,3 +275,74 @@ Definition cell3 : eobj :=
      eo_spicetype := "SUBCKT" |}.
 Definition vnw : eport := {| ep_name := "vnw"; ep_width := 1; ep_dir := "NONE" |}.
 Definition well_tap_history : list hop := [HExport [0%nat]; HMut 0 (MAppend vnw); HExport [0%nat]].
+
+(* ------------------------------------------------------------------------------------------ current declarations survive *)
+(* an ExternalModule object the constructor accepts and the exporter can write: distinct port names, members of PortDir and
+   of SpiceType *)
+Definition obj_normal (o : eobj) : bool :=
+  snodup (map ep_name (eo_ports o)) && forallb (fun p => smem (ep_dir p) portdir_names) (eo_ports o) &&
+  smem (eo_spicetype o) spicetype_names.
+
+Lemma smem_In s l : smem s l = true -> In s l.
+Proof. unfold smem. intros H. apply existsb_exists in H. destruct H as [x [A B]]. apply String.eqb_eq in B. subst. exact A. Qed.
+Lemma In_smem s l : In s l -> smem s l = true.
+Proof. unfold smem. intros H. apply existsb_exists. exists s. split; [exact H|apply String.eqb_refl]. Qed.
+
+Lemma dirs_exported : forallb (fun d => match export_dir d with Ok d' => smem d' direction_names | Error _ => true end) portdir_names = true.
+Proof. vm_compute. reflexivity. Qed.
+Lemma spicetypes_exported :
+  forallb (fun s => match export_spicetype s with Ok s' => smem s' schema_spicetype_names | Error _ => true end) spicetype_names = true.
+Proof. vm_compute. reflexivity. Qed.
+
+Lemma export_ports_shape ports : forall ps,
+  traverse (fun p => d <- export_dir (ep_dir p) ;; Ok (ep_name p, d)) ports = Ok ps ->
+  forallb (fun p => smem (ep_dir p) portdir_names) ports = true ->
+  map fst ps = map ep_name ports /\ forallb (fun p : name * string => smem (snd p) direction_names) ps = true.
+Proof.
+  induction ports as [|p r IH]; intros ps; cbn [traverse].
+  - intros H _. inversion H. split; reflexivity.
+  - destruct (export_dir (ep_dir p)) as [d|e] eqn:Ed; cbn [bind]; [|discriminate].
+    destruct (traverse (fun p => d <- export_dir (ep_dir p) ;; Ok (ep_name p, d)) r) as [ps'|e]; cbn [bind]; [|discriminate].
+    intros H F. inversion H; subst ps. cbn [forallb] in F. apply andb_true_iff in F. destruct F as [F1 F2].
+    destruct (IH ps' eq_refl F2) as [A B]. cbn [map fst snd forallb]. rewrite A, B. split; [reflexivity|].
+    apply smem_In in F1. pose proof dirs_exported as T. rewrite forallb_forall in T. specialize (T _ F1). rewrite Ed in T. rewrite T. reflexivity.
+Qed.
+
+Lemma forallb_smem_fst {B} (l : list (name * B)) names : map fst l = names -> forallb (fun p => smem (fst p) names) l = true.
+Proof.
+  intros E. apply forallb_forall. intros p Hp. apply In_smem. rewrite <- E. apply in_map. exact Hp.
+Qed.
+
+Lemma assoc_of_In {B} k (l : list (name * B)) : In k (map fst l) -> exists v, assoc k l = Some v.
+Proof.
+  induction l as [|[k' v'] l IH]; cbn [map fst In assoc]; [intros []|]. destruct (String.eqb k k') eqn:E.
+  - intros _. exists v'. reflexivity.
+  - intros [H|H]; [subst k'; rewrite String.eqb_refl in E; discriminate|apply IH; exact H].
+Qed.
+
+Lemma slist_eqb_same l : slist_eqb l l = true.
+Proof. induction l as [|x l IH]; [reflexivity|]. cbn [slist_eqb]. rewrite String.eqb_refl, IH. reflexivity. Qed.
+
+Theorem current_decl_normal o x : obj_normal o = true -> decl_of o = Ok x -> ext_normal x = true.
+Proof.
+  unfold obj_normal, decl_of. intros N. apply andb_true_iff in N. destruct N as [N N3]. apply andb_true_iff in N. destruct N as [N1 N2].
+  destruct (export_spicetype (eo_spicetype o)) as [st|e] eqn:Es; cbn [bind]; [|discriminate].
+  destruct (traverse (fun p => d <- export_dir (ep_dir p) ;; Ok (ep_name p, d)) (eo_ports o)) as [ps|e] eqn:Et; cbn [bind]; [|discriminate].
+  intros H. inversion H; subst x. clear H. destruct (export_ports_shape _ _ Et N2) as [A B].
+  assert (S : map fst (map (fun p => (ep_name p, ep_width p)) (eo_ports o)) = map ep_name (eo_ports o)) by (rewrite map_map; reflexivity).
+  unfold ext_normal, ports_ok. cbn [cx_sigs cx_ports cx_spicetype]. rewrite S, A, N1, B. cbn [andb].
+  rewrite andb_true_r. apply andb_true_iff. split; [apply andb_true_iff; split; [apply andb_true_iff; split|]|].
+  - apply (forallb_smem_fst ps _ A).
+  - apply forallb_forall. intros sw Hsw. unfold isp. destruct (assoc_of_In (fst sw) ps) as [v ->]; [|reflexivity].
+    rewrite A, <- S. apply in_map. exact Hsw.
+  - apply slist_eqb_same.
+  - apply smem_In in N3. pose proof spicetypes_exported as T. rewrite forallb_forall in T. specialize (T _ N3). rewrite Es in T. exact T.
+Qed.
+
+(* the external-module part of every package the exporter returns over a heap of normal objects is a fixed point of the round trip *)
+Theorem current_decls_roundtrip hp uses ds : forallb obj_normal hp = true -> decls_current hp uses ds ->
+  forall d, In d ds -> rt_ext d = Ok d.
+Proof.
+  intros N [C _] d Hd. destruct (C d Hd) as [id [o [_ [A B]]]]. apply ext_roundtrip. apply (current_decl_normal o); [|exact B].
+  rewrite forallb_forall in N. apply N. apply nth_error_In with id. exact A.
+Qed.
